@@ -159,3 +159,54 @@ func H_C04_rank(n, m int) {
 	vClose(q, sp, 1e-8, "Q")
 	vReach("end")
 }
+
+// value of the i-th (1-based) 7-bit block
+func specBlock7(x []bool, i int) int {
+	v := 0
+	for t := 0; t < 7; t++ {
+		v = v * 2
+		if x[(i-1)*7+t] {
+			v = v + 1
+		}
+	}
+	return v
+}
+
+// GM/T 0005 5.14 (L=7, Q=1280): for each test block i its distance to the previous occurrence of the same 7-bit
+// pattern (i itself if the pattern did not occur before); statistic = mean log2 distance; V, P, Q as in the standard
+func specMaurer(x []bool) (float64, float64) {
+	n := len(x)
+	L, Q := 7, 1280
+	K := n/L - Q
+	sum := 0.0
+	for i := Q + 1; i <= Q+K; i++ {
+		bi := specBlock7(x, i)
+		last := 0
+		for j := 1; j < i; j++ {
+			if specBlock7(x, j) == bi {
+				last = j
+			}
+		}
+		sum += math.Log(float64(i-last)) / math.Log(2.0)
+	}
+	c := 0.7 - 0.8/float64(L) + (4.0+32.0/float64(L))*(math.Pow(float64(K), -3.0/float64(L))/15.0)
+	sigma := math.Sqrt(3.125/float64(K)) * c
+	v := (sum/float64(K) - 6.1962507) / (sigma * math.Sqrt(2.0))
+	return math.Erfc(math.Abs(v)), math.Erfc(v) / 2
+}
+
+// one obligation per value of the last test block (case split on the looked-up key, DESIGN 2.3a)
+func H_C04_maurer(n, vlo, vhi int) {
+	x := vBits(n)
+	K := n/7 - 1280
+	p, q := MaurerUniversalTest(x)
+	sp, sq := specMaurer(x)
+	last := specBlock7(x, 1280+K)
+	for v := vlo; v <= vhi; v++ {
+		if last == v {
+			vClose(p, sp, 1e-8, "P")
+			vClose(q, sq, 1e-8, "Q")
+		}
+	}
+	vReach("end")
+}
